@@ -213,6 +213,22 @@ def acyclicity_core(rep, prog):
               "returns the computed ordering", "returns a constant")
     leftover = kahn_rules(rep, prog, f, S)
     cycle_rules(rep, prog, f, leftover)
+    # is_dag turns *every* ValueError of topological_ordering into "not a DAG": a rejection that looks at the element type of the
+    # matrix (dtype / kind / issubdtype) rather than at its edges makes is_dag answer False - and the constructors raise - for
+    # acyclic matrices of the types it leaves out (unsigned integers, ...).  Shape checks concern non-matrices and are fine.
+    typed = []
+    for r in rs:
+        for cnd, pol in r.path:
+            if any(isinstance(x, tuple) and ((x[0] == "attr" and x[2] in ("dtype", "kind", "itemsize")) or
+                                               (x[0] == "ext" and x[1] in ("numpy.issubdtype", "numpy.can_cast", "numpy.isrealobj", "numpy.iscomplexobj", "numpy.result_type")))
+                   for x in walk(cnd)):
+                typed.append(r)
+                break
+    if typed:
+        rep.bad("TOPO.type-rejection", fwhere(f, typed[0].node), "a ValueError depends on the dtype of the matrix: is_dag (which maps every ValueError to False) and the "
+                "constructors then reject acyclic matrices of the dtypes the test leaves out")
+    else:
+        rep.ok("TOPO.type-rejection", fwhere(f), "no rejection depends on the element type of the matrix")
 
 
 def run(prog, rep, tier):
